@@ -126,10 +126,18 @@ pub fn gen_wild_map(rng: &mut Rng, sorted: bool) -> SMapT {
   let mut gc = 0u32;
   for _ in 0..rng.below(6) {
     if rng.chance(3) { let d = rng.below(3) as u32; gl += d; if d > 0 || !sorted { gc = 0; } }
-    if sorted { gc += rng.below(5) as u32; } else { gc = rng.below(8) as u32; }
+    if sorted { gc = gc.saturating_add(rng.below(5) as u32); } else { gc = rng.below(8) as u32; }
+    // extremes of the u32 fields (a small mappings string can carry any column / original position / index; lines only grow by ';')
+    let big = |rng: &mut Rng| [u32::MAX, u32::MAX - 1, u32::MAX - 7, 1 << 31, (1 << 31) - 1, 70000][rng.below(6)];
+    if rng.chance(10) { gc = big(rng); }
     let orig = if rng.chance(4) { None } else {
-      Some(OriginalLocation { source_index: rng.below(4) as u32, original_line: rng.below(4) as u32, original_column: rng.below(12) as u32,
-        name_index: if rng.chance(3) { Some(rng.below(4) as u32) } else { None } })
+      let mut o = OriginalLocation { source_index: rng.below(4) as u32, original_line: rng.below(4) as u32, original_column: rng.below(12) as u32,
+        name_index: if rng.chance(3) { Some(rng.below(4) as u32) } else { None } };
+      if rng.chance(12) { o.original_line = big(rng); }
+      if rng.chance(12) { o.original_column = big(rng); }
+      if rng.chance(16) { o.source_index = big(rng); }
+      if rng.chance(16) && o.name_index.is_some() { o.name_index = Some(big(rng)); }
+      Some(o)
     };
     ms.push(Mapping { generated_line: gl, generated_column: gc, original: orig });
   }
